@@ -664,3 +664,18 @@ package part
 //@   atcall (*Txn).Delete@1 requires @same-key $1 == key
 //@   mustcall (*Txn).Delete@1 when @always true
 //@   mustcall (*Txn).CommitAndNotify@1 when @always true
+
+// ---------------------------------------------------------------------------
+// Map representation (C17): a map is empty, a singleton, or a tree - never a singleton AND a
+// tree (lookups try the singleton first and iteration uses only one of them, so holding both
+// would hide or duplicate an entry). Set and Delete preserve that, Set never yields an empty
+// map, and writes go through a transaction of the map's own tree.
+//@ func Map.Set
+//@   property C17
+//@   flag nosafety
+//@   maypanic
+//@   flag dyncall.bytesFromKeyFunc=pure
+//@   flag assumepre=tree-representation-invariant
+//@   requires m.singleton == nil || !m.hasTree
+//@   ensures @singleton-or-tree-never-both (result.singleton == nil || !result.hasTree) && (result.singleton != nil || result.hasTree)
+//@   ensures @singleton-replaced-by-a-new-pair result.singleton != nil ==> fresh(result.singleton)
